@@ -64,6 +64,7 @@ func LoadRT(ctx *core.Ctx, goos, goarch string) *RT {
 	r.Pkg = v.SSA[v.Pkgs[0].PkgPath]
 	r.Fns = load.SrcFuncs(r.Pkg)
 	computeAllocators(r.Fns)
+	computeFieldAliases(r.Pkg.Pkg)
 	chaResolve := ssax.Resolver(r.Pkg)
 	sites := v.VTASites(r.Pkg)
 	// interface calls are resolved with the VTA call graph (type-flow based),
@@ -188,7 +189,7 @@ func (r *RT) FieldAccesses(typ, field string) []FieldAccess {
 					return
 				}
 				st := pt.Elem().Underlying().(*types.Struct)
-				if st.Field(x.Field).Name() == field {
+				if structFieldName(st, x.Field) == field {
 					out = append(out, FieldAccess{fn, in, x, x.X})
 				}
 			case *ssa.Field:
@@ -196,7 +197,7 @@ func (r *RT) FieldAccesses(typ, field string) []FieldAccess {
 					return
 				}
 				st := x.X.Type().Underlying().(*types.Struct)
-				if st.Field(x.Field).Name() == field {
+				if structFieldName(st, x.Field) == field {
 					out = append(out, FieldAccess{fn, in, x, x.X})
 				}
 			}
@@ -388,7 +389,7 @@ func LoadedFrom(v ssa.Value, field string) (ssa.Value, bool) {
 		return nil, false
 	}
 	st := fa.X.Type().Underlying().(*types.Pointer).Elem().Underlying().(*types.Struct)
-	if st.Field(fa.Field).Name() != field {
+	if structFieldName(st, fa.Field) != field {
 		return nil, false
 	}
 	return fa.X, true
@@ -1007,4 +1008,63 @@ func (r *RT) roleTrapError() *ssa.Function {
 		}
 	}
 	return nil
+}
+
+// Canonical field names. The rules name a few unexported fields; where such a
+// field is the only one of its type in its struct, it is recognised by that
+// type after a rename (the pinned tree's name stays the canonical one).
+var canonicalFields = map[string]map[string]string{ // owner → canonical name → type (as written by types.TypeString with package names)
+	"fAdapterTransport":        {"closeSignal": "chan struct{}", "closeChan": "chan error", "monitorCloseSignal": "chan<- error", "isOpen": "bool"},
+	"fNatsServer":              {"workerCount": "uint", "workC": "chan *frugal.frameWrapper", "quit": "chan chan<- error"},
+	"fNatsSubscriberTransport": {"workerCount": "uint", "workC": "chan *nats.Msg", "quitC": "chan struct{}"},
+	"FBaseProcessor":           {"processMap": "map[string]frugal.FProcessorFunction"},
+	"FScopeProvider":           {"middleware": "[]frugal.ServiceMiddleware"},
+	"FServiceProvider":         {"middleware": "[]frugal.ServiceMiddleware"},
+	"TMemoryOutputBuffer":      {"limit": "uint"},
+	"FStandardClient":          {"limit": "uint"},
+	"Method":                   {"handler": "frugal.InvocationHandler", "proxiedStruct": "reflect.Value", "proxiedMethod": "reflect.Method"},
+	"FSimpleServer":            {"quit": "chan struct{}"},
+	"monitorRunner":            {"closedChannel": "<-chan error"},
+}
+
+var fieldAlias = map[*types.Var]string{} // renamed field → canonical name
+
+func computeFieldAliases(pkg *types.Package) {
+	fieldAlias = map[*types.Var]string{}
+	qual := func(p *types.Package) string { return p.Name() }
+	for owner, fields := range canonicalFields {
+		tn, ok := pkg.Scope().Lookup(owner).(*types.TypeName)
+		if !ok {
+			continue
+		}
+		st, ok := tn.Type().Underlying().(*types.Struct)
+		if !ok {
+			continue
+		}
+		for canon, typ := range fields {
+			present := false
+			var cands []*types.Var
+			for i := 0; i < st.NumFields(); i++ {
+				f := st.Field(i)
+				if f.Name() == canon {
+					present = true
+				}
+				if types.TypeString(f.Type(), qual) == typ {
+					cands = append(cands, f)
+				}
+			}
+			if !present && len(cands) == 1 {
+				fieldAlias[cands[0]] = canon
+			}
+		}
+	}
+}
+
+// structFieldName: the (canonical) name of field i of st.
+func structFieldName(st *types.Struct, i int) string {
+	f := st.Field(i)
+	if c, ok := fieldAlias[f]; ok {
+		return c
+	}
+	return f.Name()
 }
